@@ -336,6 +336,8 @@ func ruleChanSend(c *Ctx) []Obligation {
 	}
 	// (3) the goroutines that run the sender (rules_r4rta_spawn.go)
 	obs = append(obs, r4aGoSenders(c)...)
+	// (4) no send of the protocol can be dropped (rules_r5rt.go)
+	obs = append(obs, r5rtLossySends(c)...)
 	return obs
 }
 
@@ -1126,5 +1128,7 @@ func ruleWait(c *Ctx) []Obligation {
 	}
 	// every registration in the polled list is paired with a started sender (rules_r4rta_spawn.go)
 	obs = append(obs, r4aRegistrations(c)...)
+	// only the coordinator calls the VM-wide cancel function (rules_r5rt.go)
+	obs = append(obs, r5rtCancelCallers(c)...)
 	return obs
 }
